@@ -114,6 +114,29 @@ def gen_plans(run):
             else:
                 p.append(dict(op="Clear", arg=0, w=run.rng.choice(live)))
         plans.append(p)
+    # many copies of few values: every Add-only history over 3 (thorough: 4) values up to length 7, observed in full at the end and
+    # after the last two steps; then seeded Add/Remove histories over 2-4 values (rotations carry equal values to both sides)
+    nvd = 3 if run.quick() else 4
+    for n in range(4, 8):
+        for adds in itertools.product(range(1, nvd + 1), repeat=n):
+            if max(adds.count(v) for v in set(adds)) < 3:
+                continue        # (at most two copies of a value: covered by the tour)
+            plans.append([dict(op="Reset", nv=nvd, ty="int")] + [dict(op="Add", arg=v, w=1, full=(i >= n - 2)) for i, v in enumerate(adds)])
+    for j in range(30 if run.quick() else 600):
+        nvv = run.rng.choice([2, 3, 4])
+        p = [dict(op="Reset", nv=nvv, ty=("int", "string", "struct", "ordered")[j % 4])]
+        size, cnt = 0, {}
+        for i in range(run.rng.randint(10, 60)):
+            # (at most 12 nodes: with many equal values the trees having given traversals multiply, and the validator enumerates them)
+            v = run.rng.randint(1, nvv)
+            if size < 12 and run.rng.random() < 0.65:
+                p.append(dict(op="Add", arg=v, w=1))
+                size, cnt[v] = size + 1, cnt.get(v, 0) + 1
+            else:
+                p.append(dict(op="Remove", arg=v, w=1))
+                if cnt.get(v, 0) > 0:
+                    size, cnt[v] = size - 1, cnt[v] - 1
+        plans.append(p)
     # look-up, change, look-up (nothing observed in between but Len): whatever a tree may remember from Contains must not survive a change
     trip = []
     for n in range(0, 4):
